@@ -24,7 +24,9 @@ RULE = ("Hypothesis draws a program with a known live set at its end (K module-l
         "count are equal for n, 2n and 4n; (6) the harness allocator saw zero dealloc layout mismatches during the run "
         "and the drop of the vm; (7) no temporary root is left behind; (8) with the collector off, bytes_allocated at the end of the run == sum of size() of everything ever allocated (no allocation path forgets to count). Non-trivial: >= 1 nursery and >= 1 full "
         "collection happened during the run and >= 100 objects were freed; distinct by program + schedule.")
-ASSUMPTIONS = ["the collector conservatively traces whole fiber stacks, so the program ends with a deep call that "
+ASSUMPTIONS = ["a fiber keeps the last error it caught alive until the next one (a constant, not growth): every program and "
+               "its baseline end with the same caught error",
+               "the collector conservatively traces whole fiber stacks, so the program ends with a deep call that "
                "overwrites dead stack slots with nil before the statistics are taken",
                "strings, functions, classes and closures are also held by chunks / caches and are judged only by "
                "oracles 1, 3 and 5"]
@@ -64,7 +66,7 @@ HAZARD_CHANNELS = "fresh-channels-on-long-lived-fiber"
 
 
 def strategy(hazards):
-    kinds = st.integers(0, 8)
+    kinds = st.integers(0, 10)
     if HAZARD_CHANNELS in hazards:
         # known finding: a fiber keeps every channel it ever used alive until it completes, so channels
         # created as garbage by the (long lived) main fiber are never reclaimed. Excluded by construction.
@@ -112,6 +114,15 @@ GARBAGE = [
     lambda: [("let", "t", ("tuple", [V("i"), ("interp", ["v", V("i")])]))],
     lambda: [("let", "c", ("chan", N(3))), ("expr", ("send", V("c"), ("list", [V("i")]))), ("let", "x", ("recv", V("c")))],
     lambda: [("launch", ("call", V("fib"), [V("i")]))],
+    # natives that fail half way: a callback raising under each / reduce / sort, caught right away. Whatever the
+    # native had rooted for the duration of the call must be released although it never reached its own clean up
+    lambda: [("try", [("expr", ("call", ("prop", ("call", ("prop", ("list", [V("i"), N(1)]), "iter"), []),
+                                          ["each", "all", "any"][0]), [("lambda", ["x"], ("expr", ("bin", "+", ("nil",), V("x"))))]))],
+              [("e", None, [])])],
+    lambda: [("try", [("expr", ("call", ("prop", ("list", [V("i"), N(1), N(0)]), "sort"),
+                                [("lambda", ["a", "b"], ("expr", ("call", ("nil",), [])))]))], [("e", None, [])]),
+             ("try", [("expr", ("call", ("prop", ("call", ("prop", ("list", [V("i")]), "iter"), []), "reduce"),
+                                [N(0), ("lambda", ["a", "x"], ("expr", ("index", ("list", []), V("x"))))]))], [("e", None, [])])],
 ]
 
 
@@ -133,6 +144,9 @@ def build_program(keep, garbage):
     for idx, node in enumerate(keep):
         prog.append(("let", "keep%d" % idx, keep_expr(node, counts, uid)))
     prog.append(("expr", ("call", V("garbage"), [V("scale")])))
+    # a fiber keeps the last error it caught (one instance and its back trace) until the next one: end every program,
+    # the baseline too, with the same caught error so that this constant does not count as part of the live set
+    prog.append(("try", [("expr", ("bin", "+", ("nil",), N(1)))], [("e", None, [])]))
     # let launched fibers run to completion: receive from a channel fed by a fiber launched last
     prog.append(("let", "done", ("chan", N(1))))
     counts["Channel"] += 1
